@@ -270,13 +270,15 @@ def leafValue (cv : ColVal) (ty : Ty) : Except Err PV :=
       | .error e => .error e
       | .ok t => .ok (.atom t)
 
+/-- what `parse_entry` assigns at the entry found, given the entry's type -/
+def leafFn (cv : ColVal) (ty : Ty) : Except Err (Option Tree) :=
+  match leafValue cv ty with
+  | .error e => .error e
+  | .ok pv => assignValue ty pv
+
 /-- `parse_entry` -/
 def parseEntry (top : Ty) (out : Tree) (col : Str × ColVal) : Except Err Tree :=
-  findSet (fun ty =>
-      match leafValue col.2 ty with
-      | .error e => .error e
-      | .ok pv => assignValue ty pv)
-    top out (splitDot (getFieldName col.1))
+  findSet (leafFn col.2) top out (splitDot (getFieldName col.1))
 
 /-- `header_name_to_field_name_with_context(k, data)` -/
 def ctxRemap (sch : Schema) (data : List (Str × Str)) (k : Str) : Except Err Str :=
